@@ -3,6 +3,7 @@ package main
 // Catalogue rows for parameter sets, literals and other JSON-encoded objects.
 
 import (
+	"math"
 	"math/big"
 
 	"github.com/tuneinsight/lattigo/v6/circuits/ckks/bootstrapping"
@@ -30,6 +31,11 @@ func paramEntries() []*entry {
 					RingType: ring.ConjugateInvariant, DefaultScale: rlwe.NewScaleModT(7, 97), NTTFlag: false})
 				return &p
 			}),
+			V("full-mantissa-default-scale", func(w *world, g *gen) any {
+				p := uni.RLWE(rlwe.ParametersLiteral{LogN: 4, Q: qa()[:2], P: qa()[3:4], DefaultScale: fullScale(0), NTTFlag: true,
+					Xs: ring.Ternary{P: 1.0 / 3}, Xe: ring.DiscreteGaussian{Sigma: 3.2, Bound: 19.2}})
+				return &p
+			}),
 			// values DERIVED from other parameter sets without going through the constructor or a decoder
 			V("derived:standard-of-CI", func(w *world, g *gen) any {
 				p := must(ciRLWE().StandardParameters())
@@ -51,6 +57,15 @@ func paramEntries() []*entry {
 			}),
 			V("logNthRoot", func(w *world, g *gen) any {
 				return &rlwe.ParametersLiteral{LogN: 4, LogNthRoot: 7, LogQ: []int{30}, NTTFlag: true}
+			}),
+			// numbers with no short binary or decimal form: 128-bit scale, float64 parameters that are not decimal fractions
+			V("full-mantissa-scale+irrational-dist", func(w *world, g *gen) any {
+				return &rlwe.ParametersLiteral{LogN: 4, Q: qa()[:2], P: qa()[3:4], DefaultScale: fullScale(1),
+					Xs: ring.Ternary{P: 1.0 / 3}, Xe: ring.DiscreteGaussian{Sigma: math.Pi, Bound: 6 * math.Pi}}
+			}),
+			V("scale-2^127+1+tiny-and-huge-dist", func(w *world, g *gen) any {
+				return &rlwe.ParametersLiteral{LogN: 4, LogQ: []int{30}, DefaultScale: fullScale(3),
+					Xs: ring.Ternary{P: math.Nextafter(0.5, 1)}, Xe: ring.DiscreteGaussian{Sigma: math.Nextafter(3.2, 4), Bound: 1e21 / 3}}
 			}),
 			V("minimal", func(w *world, g *gen) any { return &rlwe.ParametersLiteral{LogN: 5, Q: uni.Primes(5, 45, 1)} }),
 		}},
@@ -118,6 +133,22 @@ func paramEntries() []*entry {
 				return &dft.MatrixLiteral{Type: dft.HomomorphicDecode, LogSlots: 2, LevelQ: 1, LevelP: 0, Levels: []int{2}}
 			}),
 			V("zero-value", func(w *world, g *gen) any { return &dft.MatrixLiteral{} }),
+			// scaling constants that are not dyadic: every bit of the mantissa is significant, at the precisions a caller
+			// obtains from SetFloat64 (53), from the zero value (64) and from the 128/256 bits the circuits work with
+			V("encode-scaling-one-third-prec128", func(w *world, g *gen) any {
+				return &dft.MatrixLiteral{Type: dft.HomomorphicEncode, LogSlots: 3, LevelQ: 2, LevelP: 1, Levels: []int{1, 1},
+					Scaling: new(big.Float).SetPrec(128).Quo(big.NewFloat(1), big.NewFloat(3))}
+			}),
+			V("decode-scaling-0.1-prec53", func(w *world, g *gen) any {
+				return &dft.MatrixLiteral{Type: dft.HomomorphicDecode, LogSlots: 2, LevelQ: 1, Levels: []int{2}, Scaling: new(big.Float).SetFloat64(0.1)}
+			}),
+			V("decode-scaling-one-seventh-prec64", func(w *world, g *gen) any {
+				return &dft.MatrixLiteral{Type: dft.HomomorphicDecode, LogSlots: 2, LevelQ: 1, Levels: []int{1, 1}, Scaling: new(big.Float).SetPrec(64).Quo(big.NewFloat(1), big.NewFloat(7))}
+			}),
+			V("encode-scaling-2^255+1-prec256", func(w *world, g *gen) any {
+				v := new(big.Int).Add(new(big.Int).Lsh(big.NewInt(1), 255), big.NewInt(1))
+				return &dft.MatrixLiteral{Type: dft.HomomorphicEncode, LogSlots: 1, LevelQ: 1, Levels: []int{1}, Scaling: new(big.Float).SetPrec(256).SetInt(v)}
+			}),
 		}},
 		{name: "mod1.ParametersLiteral", zero: Z[mod1.ParametersLiteral](), vals: []value{
 			V("cos", func(w *world, g *gen) any {
@@ -127,6 +158,12 @@ func paramEntries() []*entry {
 				return &mod1.ParametersLiteral{LevelQ: 2, LogScale: 30, Mod1Type: mod1.SinContinuous, LogMessageRatio: 4, K: 3, Mod1Degree: 15}
 			}),
 			V("zero-value", func(w *world, g *gen) any { return &mod1.ParametersLiteral{} }),
+			V("cos-scaling-one-third", func(w *world, g *gen) any {
+				return &mod1.ParametersLiteral{LevelQ: 3, LogScale: 45, Mod1Type: mod1.CosContinuous, Scaling: 1.0 / 3, LogMessageRatio: 6, K: 16, Mod1Degree: 20, DoubleAngle: 1}
+			}),
+			V("sin-scaling-next-after-1", func(w *world, g *gen) any {
+				return &mod1.ParametersLiteral{LevelQ: 1, LogScale: 20, Mod1Type: mod1.SinContinuous, Scaling: math.Nextafter(1, 2), K: 1, Mod1Degree: 3}
+			}),
 		}},
 		{name: "bootstrapping.ParametersLiteral", zero: Z[bootstrapping.ParametersLiteral](), vals: []value{
 			V("zero-value", func(w *world, g *gen) any { return &bootstrapping.ParametersLiteral{} }),
@@ -140,12 +177,23 @@ func paramEntries() []*entry {
 				return &bootstrapping.ParametersLiteral{LogN: ip(8), Xs: ring.Ternary{H: 32}, Xe: ring.DiscreteGaussian{Sigma: 3.2, Bound: 19}}
 			}),
 			V("few", func(w *world, g *gen) any { return &bootstrapping.ParametersLiteral{LogSlots: ip(3), K: ip(4)} }),
+			V("non-decimal-floats", func(w *world, g *gen) any {
+				return &bootstrapping.ParametersLiteral{LogN: ip(8), Xs: ring.Ternary{P: 1.0 / 3}, Xe: ring.DiscreteGaussian{Sigma: math.Pi, Bound: 6 * math.Pi},
+					IterationsParameters: &bootstrapping.IterationsParameters{BootstrappingPrecision: []float64{25.3, 100.0 / 3, math.Nextafter(16, 17)}, ReservedPrimeBitSize: 20}}
+			}),
 		}},
 		{name: "bootstrapping.Parameters", zero: Z[bootstrapping.Parameters](), heavy: true, vals: []value{
 			V("LogN8-default", func(w *world, g *gen) any { p := btpParams(8, bootstrapping.ParametersLiteral{}); return &p }),
 			V("LogN8-iterations-sparse", func(w *world, g *gen) any {
 				p := btpParams(8, bootstrapping.ParametersLiteral{LogSlots: ip(5), EphemeralSecretWeight: ip(0),
 					IterationsParameters: &bootstrapping.IterationsParameters{BootstrappingPrecision: []float64{20}, ReservedPrimeBitSize: 20}})
+				return &p
+			}),
+			V("LogN8-caller-set-scalings", func(w *world, g *gen) any { // documented: a non-nil Scaling of either matrix is multiplied into the circuit's own constant
+				p := btpParams(8, bootstrapping.ParametersLiteral{LogSlots: ip(4),
+					IterationsParameters: &bootstrapping.IterationsParameters{BootstrappingPrecision: []float64{100.0 / 3}, ReservedPrimeBitSize: 20}})
+				p.CoeffsToSlotsParameters.Scaling = new(big.Float).SetPrec(128).Quo(big.NewFloat(1), big.NewFloat(3))
+				p.SlotsToCoeffsParameters.Scaling = new(big.Float).SetFloat64(0.1)
 				return &p
 			}),
 		}},
